@@ -22,6 +22,7 @@ SPECS = {
     "GenC18Cos": {
         "file": COS,
         "dom": "R",
+        "class_decorators": {"ExponentialOfLevyModel": ["MomentsDecorator()"]},
         "header": HEADER,
         "consts": {"np.pi": "PI"},
         # uninit: the content of the uninitialised cells np.divide(..., where=mask) leaves where the mask is False
@@ -87,10 +88,10 @@ SPECS = {
              "args": [("m", "R"), ("y", "R")], "ret": "bool", "attrs": {"parameters.m": "m", "parameters.y": "y"}},
             {"kind": "assign_rhs", "file": EXPLEVY, "py": "ExponentialOfLevyModel.__init__", "target": "self.omega", "coq": "exp_omega",
              "args": [("z_re", "R")], "ret": "R", "subst": {"exponent_at_minus_i.real": "z_re"}},
-            {"kind": "assign_rhs", "file": EXPLEVY, "py": "ExponentialOfLevyModel.log_characteristic_function", "target": "drift",
+            {"kind": "assign_rhs", "file": EXPLEVY, "py": "ExponentialOfLevyModel.log_characteristic_function", "target": "drift", "defaults": {"log_spot": "None"},
              "coq": "exp_drift", "args": [("r", "R"), ("d", "R"), ("omega", "R")], "ret": "R",
              "attrs": {"self.r": "r", "self.d": "d", "self.omega": "omega"}},
-            {"kind": "return_rhs", "file": EXPLEVY, "py": "ExponentialOfLevyModel.log_characteristic_function", "coq": "exp_mgf_formula",
+            {"kind": "return_rhs", "file": EXPLEVY, "py": "ExponentialOfLevyModel.log_characteristic_function", "coq": "exp_mgf_formula", "defaults": {"log_spot": "None"},
              "args": [("log_spot_val", "R"), ("t", "R"), ("drift", "R"), ("levy_cf", "R"), ("u", "R")], "ret": "R",
              "subst": {"np.exp(1j * x * (log_spot_val + t * drift))": "(exp (u * (log_spot_val + t * drift)))"}},
             {"kind": "return_rhs", "file": EXPLEVY, "py": "ExponentialOfLevyModel.df", "coq": "exp_df", "args": [("r", "R"), ("t", "R")],
